@@ -282,11 +282,25 @@ func (r *Run) selectCases() error {
 				r.cases = append(r.cases, harnessCase{fn: fn, name: n, k: k})
 			}
 		} else {
-			// deterministic spread selected by seed
+			// deterministic spread selected by seed; the first VF_ cases (rare kinds) are always included
 			seen := map[int]bool{}
-			step := total / want
-			for i := 0; i < want; i++ {
-				k := (r.o.Seed + i*step) % total
+			first := 0
+			if ffn := r.lookupHelper(fn, "VF_"+base); ffn != nil {
+				if f, err := r.concreteInt(ffn); err == nil && f < total {
+					first = f
+				}
+			}
+			for k := 0; k < first; k++ {
+				seen[k] = true
+				r.cases = append(r.cases, harnessCase{fn: fn, name: n, k: k})
+			}
+			rest := total - first
+			step := rest / want
+			if step == 0 {
+				step = 1
+			}
+			for i := 0; i < want && i < rest; i++ {
+				k := first + (r.o.Seed+i*step)%rest
 				for seen[k] {
 					k = (k + 1) % total
 				}
@@ -903,7 +917,7 @@ func (r *Run) solvePortfolio(q *Query) *SolveResult {
 			}
 		}
 	}
-	grace := time.After(15 * time.Second)
+	grace := time.After(60 * time.Second)
 	var last *SolveResult
 	for pending > 0 {
 		select {
